@@ -181,6 +181,7 @@ type Out struct {
 	Kind   string   // push kind
 	Args   []string // invalidate: keys; message: channel,payload; pmessage: pattern,channel,payload
 	Flush  bool     // invalidate with null
+	Reply  string   // reply: first line of the frame, e.g. "+OK", "-ERR ...", "%7", "$3"
 }
 
 // ConnInfo is a snapshot of the session state of a connection.
@@ -690,7 +691,11 @@ func (s *Server) handle(c *conn, argv []string) {
 		case Stall:
 			it.stall = true
 		}
-		s.queue(c, it, Out{ID: id})
+		first := string(data)
+		if i := strings.Index(first, "\r\n"); i >= 0 {
+			first = first[:i]
+		}
+		s.queue(c, it, Out{ID: id, Reply: first})
 	}
 	for _, f := range s.defer_ {
 		f()
